@@ -24,6 +24,7 @@ type PureCase struct {
 }
 
 var c08Hist *eng.Kind[PureCase]
+var c08Refusal *eng.Kind[PureCase]
 
 func init() {
 	c := eng.Register(&eng.Check{
@@ -37,6 +38,7 @@ func init() {
 		Env:         func(int) []string { return []string{"TZ=UTC"} },
 	})
 	c08Hist = eng.NewKind(c, "history", judgePure)
+	c08Refusal = eng.NewKind(c, "refusal-then-reuse", judgeRefusal)
 }
 
 type poolEntry struct {
@@ -97,17 +99,28 @@ func c08Data() map[string]interface{} {
 
 // c08Shared is handed to every evaluation of the shared-data entries as the very same object.
 var c08Shared = map[string]interface{}{
-	"tags":  []string{"beta", "alpha", "gamma", "alpha"},
-	"nums":  []interface{}{3.0, 1.0, 2.0},
-	"srows": []map[string]interface{}{{"k": "r2"}, {"k": "r1"}},
-	"smap":  map[string]interface{}{"b": "B", "a": "A"},
-	"big":   decimal.New(1, -100), // 1e100, a number object owned by the caller
-	"neg":   decimal.New(-25, 1),
-	"fss":   func(xs []string) (string, error) { return strings.Join(xs, "/"), nil },
-	"fsi":   func(xs []interface{}) (int, error) { return len(xs), nil },
+	"tags":   []string{"beta", "alpha", "gamma", "alpha"},
+	"nums":   []interface{}{3.0, 1.0, 2.0},
+	"srows":  []map[string]interface{}{{"k": "r2"}, {"k": "r1"}},
+	"smap":   map[string]interface{}{"b": "B", "a": "A"},
+	"big":    decimal.New(1, -100), // 1e100, a number object owned by the caller
+	"neg":    decimal.New(-25, 1),
+	"cyc":    c08Cyclic,
+	"holder": []interface{}{c08Inner, "x"},
+	"fss":    func(xs []string) (string, error) { return strings.Join(xs, "/"), nil },
+	"fsi":    func(xs []interface{}) (int, error) { return len(xs), nil },
 }
 
 var c08SharedSrc = map[string]bool{}
+
+// a list that contains itself and, next to it, a harmless list that shares one member with it: the
+// refusal of the first leaves nothing behind that makes the second look cyclic
+var c08Inner = []interface{}{1.0, "in"}
+var c08Cyclic = func() []interface{} {
+	c := []interface{}{c08Inner, nil}
+	c[1] = c
+	return c
+}()
 
 var c08Pool = func() []poolEntry {
 	srcs := []string{
@@ -185,7 +198,8 @@ var c08Pool = func() []poolEntry {
 	}
 	for _, s := range []string{"join(tags, ',') + (includes(tags, 'gamma') ? '!' : '?')", "includes(tags, 'alpha') + join(tags, '-')", "[max(nums...), min(nums...), nums]", "mapToArr(srows, 'k')",
 		"join(mapToArr(srows, 'k'), '+') + len(tags)", "[tags, nums, srows, smap.b + smap.a]", "left(join(tags, ''), 3) + right(join(tags, ''), 2)", "fss(tags) + fsi(nums)",
-		"[log(big), ln(big), log(big), big]", "[abs(neg), floor(neg), -neg, neg]", "max(big, neg) + min(neg, big)"} {
+		"[log(big), ln(big), log(big), big]", "[abs(neg), floor(neg), -neg, neg]", "max(big, neg) + min(neg, big)",
+		"toString(cyc)", "toString(holder) + join(holder, ';')", "'' + holder + fsi(holder)"} {
 		pool = append(pool, poolEntry{src: s, data: func() map[string]interface{} { return c08Shared }})
 		c08SharedSrc[s] = true
 	}
@@ -566,6 +580,45 @@ func judgePure(c PureCase) *eng.Fail {
 	return nil
 }
 
+// judgeRefusal: a value that contains itself is refused; once the caller has taken the cycle out, the same
+// objects convert like any others (nothing of the refusal is remembered), in fresh runners and repeatedly.
+func judgeRefusal(c PureCase) *eng.Fail {
+	mid := []interface{}{1.0, nil}
+	mid[1] = mid
+	outer := []interface{}{mid, "o"}
+	m := map[string]interface{}{"k": outer}
+	data := func() map[string]interface{} {
+		return map[string]interface{}{"outer": outer, "m": m, "holder": []interface{}{mid, outer}}
+	}
+	forms := []string{"toString(outer)", "'' + m", "join([holder], ';')", "toString(holder) + toString(outer)"}
+	for round := 0; round < 3; round++ {
+		for _, f := range forms {
+			o, err := evalWith(f, data())
+			if err != nil || o.panicked {
+				return eng.F("C08/eval", "%s: %v %s", f, err, o.panicMsg)
+			}
+			if o.err == nil {
+				return eng.F("C08/cyclic-accepted", "%s on a list that contains itself = %s, expected an error", f, show(o.val))
+			}
+		}
+	}
+	mid[1] = "end" // the caller takes the cycle out
+	want := []string{"[[1 end] o]", "map[k:[[1 end] o]]", "[[1 end] [[1 end] o]]", "[[1 end] [[1 end] o]][[1 end] o]"}
+	for round := 0; round < 2; round++ {
+		for i, f := range forms {
+			o, err := evalWith(f, data())
+			if err != nil || o.panicked || o.err != nil {
+				return eng.F("C08/refusal-remembered", "%s after the cycle was taken out of the data: %v %v %s (expected %q; the same formula with equal data in a fresh runner)", f, err, o.err, o.panicMsg, want[i])
+			}
+			if got, _ := o.val.(string); got != want[i] {
+				return eng.F("C08/refusal-remembered", "%s after the cycle was taken out of the data = %q, expected %q", f, got, want[i])
+			}
+		}
+	}
+	outcome("refusal-then-reuse")
+	return nil
+}
+
 func tail200(s string) string {
 	if len(s) > 600 {
 		return s[:600] + "..."
@@ -591,6 +644,13 @@ func runC08(w *eng.W) {
 		c := PureCase{Ops: append([][2]int(nil), h...)}
 		w.Sample(leg, c)
 		c08Hist.Do(w, c)
+	}
+	if w.First() {
+		w.State(1)
+		w.Trans(20)
+		w.Trace(1)
+		w.Note("leg:refusal-then-reuse", 1)
+		c08Refusal.Do(w, PureCase{})
 	}
 	// every ordered pair
 	for _, a := range ops {
